@@ -171,9 +171,21 @@ impl SignatureConverter<'_> {
 
         // Type and const parameters are lifted to the trait (see GenericsAnalyzer),
         // so only lifetime parameters stay on the method.
+        // An impl block implements a trait that was written by hand: its methods
+        // keep their own parameters, only the deps parameter goes away.
+        let keep_on_method = !matches!(self.impl_receiver_kind, ImplReceiverKind::SelfRef);
         for param in params.into_iter() {
             match &param {
-                syn::GenericParam::Type(_) | syn::GenericParam::Const(_) => {}
+                syn::GenericParam::Type(type_param) => {
+                    if keep_on_method && Some(&type_param.ident) != deps_ident {
+                        generics.params.push(param);
+                    }
+                }
+                syn::GenericParam::Const(_) => {
+                    if keep_on_method {
+                        generics.params.push(param);
+                    }
+                }
                 syn::GenericParam::Lifetime(_) => {
                     generics.params.push(param);
                 }
